@@ -715,6 +715,11 @@ impl<'a> Interp<'a> {
                         FPart::Text(t) => s.push_str(t),
                         FPart::Expr(e) => {
                             let v = self.expr(e, env)?;
+                            if let V::Tr(t) = &v {
+                                // the conversion of a host type is a host call, made where the part stands
+                                self.path.host_calls += 1;
+                                self.log.push(Ev::Eff("Tr.to_string".into(), vec![V::i32(*t)]));
+                            }
                             s.push_str(&to_string(&v).ok_or_else(|| Stop::Unsupported("to_string".into()))?);
                         }
                     }
@@ -960,6 +965,11 @@ impl<'a> Interp<'a> {
             (V::F64(x), "floor") => Ok(V::F64(x.floor())),
             (V::F32(x), "is_nan") => Ok(V::Bool(x.is_nan())),
             (V::F64(x), "is_nan") => Ok(V::Bool(x.is_nan())),
+            (V::Tr(t), "to_string") => {
+                self.path.host_calls += 1;
+                self.log.push(Ev::Eff("Tr.to_string".into(), vec![V::i32(*t)]));
+                Ok(V::Str(format!("Tr({t})")))
+            }
             (v, "to_string") => to_string(v).map(V::Str).ok_or_else(|| Stop::Unsupported("to_string".into())),
             _ => Err(Stop::Unsupported(format!("method {m} on {}", show(&recv)))),
         }
